@@ -359,6 +359,14 @@ def check_router_chain(ctx, model):
 
 def run(ctx):
     model = ctx.model()
+    # what a swap RECORDS is what it quoted: the protocol / burn fee booked in both ledgers is compute_swap's like-named
+    # value, added through the add-only helper (C07-F1/F4)
+    from .C07 import check_swap as _swap_booking, check_writers as _ledger_writers, check_store_fee_addonly as _addonly
+    px = ctx.renamed({"C07-F1": "C14-S2", "C07-F2": "C14-S2", "C07-F4": "C14-S2"})
+    for _crate in ("terraswap_pair", "stableswap_3pool"):
+        _swap_booking(px, model, _crate)
+        _addonly(px, model, _crate)
+    _ledger_writers(px, model)
     # simulation and execution of the 3-pool build the curve from the same inputs: the stored ramp and the block HEIGHT
     from .C04 import check_curve_inputs
     check_curve_inputs(ctx, model, rule="C14-S3")
